@@ -152,6 +152,41 @@ class Den(object):
         hi_k = (math.inf, 0) if hi is None else ((self.val(hi).as_long()), -1 if ex else 0)
         return lo_k, hi_k
 
+    def fold_ranges(self, kids):
+        """Replays CompoundQuery.normalize's sequential merge of overlapping same-field ranges under And with
+        RangeMixin.merge's behaviour (containment -> the containing range, else intersection)."""
+        kids = list(kids)
+        i = 0
+        while i < len(kids):
+            q = kids[i]
+            if q[0] in ("range", "nrange"):
+                j = i + 1
+                while j < len(kids):
+                    o = kids[j]
+                    if o[0] == q[0] and o[1] == q[1] and self.overlap(q, o):
+                        kids.pop(j)
+                        q = self.merge(q, o)
+                        j = i + 1
+                    else:
+                        j += 1
+                kids[i] = q
+            i += 1
+        return kids
+
+    def overlap(self, a, b):
+        (s1, e1), (s2, e2) = self.bounds(a), self.bounds(b)
+        return (s2 <= s1 <= e2) or (s2 <= e1 <= e2) or (s1 <= s2 <= e1) or (s1 <= e2 <= e1)
+
+    def merge(self, a, b):
+        (s1, e1), (s2, e2) = self.bounds(a), self.bounds(b)
+        if s1 >= s2 and e1 <= e2:
+            return b
+        if s2 >= s1 and e2 <= e1:
+            return a
+        lo = a if s1 >= s2 else b
+        hi = a if e1 <= e2 else b
+        return [a[0], a[1], lo[2], hi[3], lo[4], hi[5]]
+
     def den(self, t, inp=False):
         op = t[0]
         if op == "null":
@@ -198,16 +233,7 @@ class Den(object):
                     ef = set(everyish(k) for k in kids if everyish(k) is not None)
                     kids = [k for k in kids if everyish(k) is not None or tfield(k) is None or tfield(k) not in ef]
                 if "A4" in self.flags:
-                    rs = [k for k in kids if k[0] in ("range", "nrange")]
-                    drop = set()
-                    for i, a in enumerate(rs):
-                        for j, b in enumerate(rs):
-                            if i != j and a[1] == b[1] and id(b) not in drop:
-                                la, ha = self.bounds(a)
-                                lb, hb = self.bounds(b)
-                                if lb <= la and ha <= hb and (la, ha) != (lb, hb):
-                                    drop.add(id(a))      # a is contained in b: whoosh keeps the outer b
-                    kids = [k for k in kids if id(k) not in drop]
+                    kids = self.fold_ranges(kids)
             return z3.And(*[self.den(s, inp) for s in kids]) if kids else z3.BoolVal(False if not t[1] else True)
         if op == "or":
             return z3.Or(*[self.den(s, inp) for s in t[1]]) if t[1] else z3.BoolVal(False)
